@@ -603,7 +603,11 @@ func NewFakeNodeByType(extCard NodeCardinality, ntype NodeType, name string) Nod
 	}
 
 	node.node.NodeType = ntype
-	node.node.card = cardinalities[ntype]
+	// Copy the row: extCard entries must not leak into the shared RFC table.
+	node.node.card = make(map[NodeType]Cardinality, len(cardinalities[ntype]))
+	for k, v := range cardinalities[ntype] {
+		node.node.card[k] = v
+	}
 	if extCard == nil {
 		return node
 	}
